@@ -2,6 +2,9 @@
 SITES = [
     dict(gen="Writes", name="atomsWrites", file="abtem/atoms.py", emitter="py2lean_writes:emit", select="param:atoms", modes=["rat"]),
     dict(gen="Writes", name="measurementWrites", file="abtem/measurements.py", emitter="py2lean_writes:emit", select="methods", modes=["rat"]),
+    dict(gen="Writes", name="potentialWrites", file="abtem/potentials/iam.py", emitter="py2lean_writes:emit", select="param_any:atoms", modes=["rat"]),
+    dict(gen="Writes", name="phononWrites", file="abtem/inelastic/phonons.py", emitter="py2lean_writes:emit", select="param_any:atoms", modes=["rat"]),
+    dict(gen="Writes", name="blochWrites", file="abtem/bloch/dynamical.py", emitter="py2lean_writes:emit", select="param_any:atoms", modes=["rat"]),
     dict(gen="Writes", name="arrayObjectWrites", file="abtem/array.py", emitter="py2lean_writes:emit", select="methods", modes=["rat"]),
 ]
 FINGERPRINTS = {
